@@ -154,6 +154,7 @@ inline void exec(World &w, const Prog &prog, std::vector<Parked> &parks, cocls::
                 else if (o.b & 2) { auto fn = pr.bind(v); (void)fn; }          // (bound object dropped uncalled: the promise inside is destroyed, no value)
                 else pr(v);
                 bool hv = f.has_value();
+                if (hv != !(!(o.b & 1) && (o.b & 2))) hz::fail("a future whose resolution was %s reports has_value()=%d", (!(o.b & 1) && (o.b & 2)) ? "bound but never performed" : "performed", (int)hv);
                 if (hv && f.value().w[7] != o.a + 7) hz::fail("a 64-byte value arrived damaged");
                 w.big_episodes++;
             } break;
